@@ -269,7 +269,8 @@ impl Display for RustFieldType {
 fn may_repeat(max_occurs: Option<&str>) -> bool {
     match max_occurs {
         Some("unbounded") => true,
-        Some(n) => n.parse::<u64>().is_ok_and(|n| n > 1),
+        // maxOccurs is a nonNegativeInteger of any size: a number too large for u64 is still more than one
+        Some(n) => n.parse::<u64>().map_or_else(|_| !n.is_empty() && n.bytes().all(|b| b.is_ascii_digit()), |n| n > 1),
         None => false,
     }
 }
